@@ -80,6 +80,21 @@ def exhaustive_cases(tier):
     return out
 
 
+def history_revisit_selfdriven(rng, n):
+    """the same family for back-ends that are run without outside events (Promela): a boot state sends the whole
+    event history to the session itself before the chart proper is entered"""
+    out = []
+    for d, evs in history_revisit_cases(rng, n):
+        sx = charts.sexpr(d)
+        sx = sx.replace("E", "L2").replace("OUT", "L1")
+        sends = " ".join("(send %d %s -)" % (100 + i, e) for i, e in enumerate(evs))
+        first = "p" if "(init p)" in sx else "out"
+        sx = sx.replace("(scxml root (init p) ", "(scxml root ", 1)
+        sx = sx.replace("(scxml root ", "(scxml root (init boot) (state boot (onentry %s) (t - - e (%s))) " % (sends, first), 1)
+        out.append(charts.from_sexpr(sx))
+    return out
+
+
 def history_revisit_cases(rng, n):
     """a compound state with a (shallow or deep) history that is left and re-entered through the history several
     times, with a different child active each time; optionally a second level below one child"""
